@@ -1,6 +1,6 @@
 """C28 — rate limiting counts correctly under concurrent requests (src/server/rrl.rs:364-407)."""
 
-KINDS = ["na", "nB", "da", "wq", "yq", "cq", "xq", "rq", "f", "va"]
+KINDS = ["na", "nB", "da", "wq", "yq", "cq", "xq", "rq", "f", "va", "u"]
 
 
 def gen(rng, tier):
